@@ -8,7 +8,11 @@ from c08 import observe, gout
 
 THEOREMS = ['C05_bounded_native_is_spec', 'C05_integer_native_is_spec', 'C05_unsigned_native_is_spec',
             'C05_none_native_is_spec', 'C05_text_leaf_spec', 'C05_leaf_verdicts_agree', 'C05_text_leaf_total',
-            'C05_freq_verdicts_agree', 'C05_dict_freq_spec']
+            'C05_freq_verdicts_agree', 'C05_dict_freq_spec',
+            'C05_unicode_checks_are_spec', 'C05_unicode_none_is_spec', 'C05_text_paths_are_spec', 'C05_text_verdicts_agree',
+            'C05_text_null_verdicts_agree', 'C05_text_paths_total', 'C05_datetime_native_is_spec', 'C05_datetime_naive_rule',
+            'C05_datetime_verdict_of_instant', 'C05_datetime_lex_instant', 'C05_date_native_is_spec', 'C05_time_native_is_spec',
+            'C05_datetime_leaf_spec', 'C05_date_leaf_spec', 'C05_time_leaf_spec', 'C05_range_paths_agree']
 
 INT_CLASSES = {'Integer8': (True, 8), 'Integer16': (True, 16), 'Integer32': (True, 32), 'Integer64': (True, 64),
                'UnsignedInteger8': (False, 8), 'UnsignedInteger16': (False, 16), 'UnsignedInteger32': (False, 32),
@@ -793,6 +797,229 @@ def family_lexical(check, tier):
     check.sample({'family': 'lexical', 'DateTime': LEX['DateTime'][1][4:8]})
 
 
+# ------------------------------------------------------------------ correspondences of the facet models
+FACET_IMPORTS = ('From SpyneV Require Import Base.Prelude Base.Ext C08.DtModel C05.Facets Gen.FacetTypes C05.FacetModel.\n'
+                 'Definition tout_eqb := out_eqb otext_eqb.\n'
+                 'Definition run_text (p : Z) (a : str_attrs) (nl : bool) (v : option text) (pr : bool) : out (option text) :=\n'
+                 '  let fullm := fun _ : text => pr in\n'
+                 '  if p =? 0 then xml_elem_text class_Unicode fullm a nl v\n'
+                 '  else if p =? 2 then hier_text class_Unicode fullm a v\n'
+                 '  else match v with Some s => if p =? 1 then xml_attr_text class_Unicode fullm a s else flat_text class_Unicode fullm a s\n'
+                 '                  | None => Crash OtherExn end.\n'
+                 'Definition dtl_eqb := out_eqb (oeqb datetime_eqb).\nDefinition dl_eqb := out_eqb (oeqb date_eqb).\n'
+                 'Definition tl_eqb := out_eqb (oeqb tod_eqb).')
+
+def g_str_attrs(T):
+    A = T.Attributes
+    inf = _dec.Decimal('inf')
+    return ('{| sa_nillable := %s; sa_min_len := %s; sa_max_len := %s; sa_has_pattern := %s; sa_values := %s |}' % (
+        gbool(A.nillable), gz(A.min_len), 'PosInf' if A.max_len == inf else '(Fin %s)' % gz(A.max_len),
+        gbool(A.pattern is not None), glist([gtext(v) for v in sorted(A.values)])))
+
+def unicode_type_cases(check, tier):
+    from spyne.model.primitive import Unicode
+    rng = check.rng
+    kws = [{}, {'min_len': 2}, {'max_len': 3}, {'min_len': 1, 'max_len': 4}, {'pattern': '[a-z]+'}, {'pattern': 'a|ab'},
+           {'pattern': '\\d{2,3}'}, {'values': ['red', 'green']}, {'min_len': 2, 'pattern': '[ab]*'}, {'nillable': False},
+           {'min_len': 3, 'max_len': 2}, {'values': ['a', ''], 'min_len': 1}, {'pattern': '.*', 'max_len': 2, 'nillable': False},
+           {'min_len': 0, 'max_len': 0}]
+    pats = ['[a-z]+', 'a|ab', '(ab)*', '.', '.*', '[^a]*', 'a?b?', '\\w+', '\\s*', 'ab', '']
+    for _ in range(6 if tier == 'quick' else 60):
+        kw = {}
+        if rng.random() < .5:
+            kw['min_len'] = rng.randint(0, 3)
+        if rng.random() < .5:
+            kw['max_len'] = rng.randint(0, 5)
+        if rng.random() < .4:
+            kw['pattern'] = rng.choice(pats)
+        if rng.random() < .25:
+            kw['values'] = rng.sample(['a', 'ab', 'abc', '', 'red', 'B', '12'], rng.randint(1, 3))
+        if rng.random() < .3:
+            kw['nillable'] = False
+        kws.append(kw)
+    return [(kw, Unicode.customize(**kw)) for kw in kws]
+
+def unicode_probe_strings(kw, rng, n):
+    base = ['', 'a', 'ab', 'abc', 'abcd', 'abcde', 'abcdef', 'red', 'Red', 'B', '12', '123', '1234', 'ab\n', 'aab', 'b', ' ',
+            'ünï', '\U0001F600', 'a\U0001F600', 'é', 'ab ', ' ab']
+    for v in kw.get('values', []):
+        base += [v, v + 'x', v[:-1]]
+    for _ in range(n):
+        base.append(''.join(rng.choice('abAB12 \né\U0001F600') for _ in range(rng.randint(0, 6))))
+    return base
+
+def family_text_corr(check, tier):
+    """the four Unicode enforcement paths of coq/C05/FacetModel.v against XmlDocument.from_element (element and
+    attribute), JsonDocument._from_dict_value and HttpRpc's SimpleDictDocument.simple_dict_to_object; the regular
+    expression engine's answer travels in the case (it is the oracle [fullm] of the model)"""
+    from spyne import ComplexModel, XmlAttribute
+    from spyne.model.complex import ComplexModelMeta
+    from spyne.protocol.xml import XmlDocument
+    from spyne.protocol.json import JsonDocument
+    from spyne.protocol.http import HttpRpc
+    from lxml import etree
+    rng = check.rng
+    xml = XmlDocument(validator='soft')
+    js = JsonDocument(validator='soft')
+    http = HttpRpc(validator='soft')
+    cases = []
+    def add(path, T, nil, v, o, what):
+        subject = (v or '') if path == 0 else v       # an element without text holds the empty string
+        pr = bool(T.Attributes.pattern is not None and subject is not None and T.Attributes._pattern_re.fullmatch(subject) is not None)
+        if o[0] == 'ok' and o[1] is not None and not isinstance(o[1], str):
+            return
+        cases.append(('(%d, %s, %s, %s, %s, %s)' % (path, g_str_attrs(T), gbool(nil), gopt(v, gtext), gbool(pr),
+                                                   gout(o, lambda x: gopt(x, gtext))), what))
+        check.count(('tcorr', path, what))
+    for kw, T in unicode_type_cases(check, tier):
+        W = ComplexModelMeta('W', (ComplexModel,), {'__namespace__': TNS, '_type_info': [('v', T)]})
+        WA = ComplexModelMeta('WA', (ComplexModel,), {'__namespace__': TNS, '_type_info': [('v', XmlAttribute(T))]})
+        for s in unicode_probe_strings(kw, rng, 3 if tier == 'quick' else 12) + [None]:
+            # XML element: None = an element without text; also with xsi:nil
+            el = etree.Element('x')
+            el.text = s if s else None
+            add(0, T, False, s if s else None, observe(xml.from_element, None, T, el), 'xml elem %r %r' % (kw, s))
+            if s is None or rng.random() < .15:
+                el = etree.Element('x')
+                el.text = s if s else None
+                el.set('{%s}nil' % XSI, rng.choice(['true', '1']))
+                add(0, T, True, s if s else None, observe(xml.from_element, None, T, el), 'xml nil %r %r' % (kw, s))
+            add(2, T, False, s, observe(js._from_dict_value, None, 'k', T, s, js.validator), 'json %r %r' % (kw, s))
+            if s is not None:
+                el = etree.Element('x')
+                try:
+                    el.set('v', s)
+                except ValueError:
+                    el = None
+                if el is not None:
+                    o = observe(xml.from_element, None, WA, el)
+                    add(1, T, False, s, ('ok', o[1].v) if o[0] == 'ok' else o, 'xml attr %r %r' % (kw, s))
+                o = observe(http.simple_dict_to_object, None, {'v': [s]}, W, http.validator)
+                add(3, T, False, s, ('ok', o[1].v) if o[0] == 'ok' else o, 'flat %r %r' % (kw, s))
+    lib.correspond(check, 'unicode_paths', FACET_IMPORTS, 'Z * str_attrs * bool * option text * bool * out (option text)',
+                   '(fun c => match c with (p, a, nl, v, pr, r) => tout_eqb (run_text p a nl v pr) r end)', cases,
+                   show='(fun c : Z * str_attrs * bool * option text * bool * out (option text) => '
+                        'match c with (p, a, nl, v, pr, r) => run_text p a nl v pr end)')
+    check.sample({'family': 'Unicode path correspondence', 'paths': ['xml element', 'xml attribute', 'json', 'http flat'],
+                  'cases': len(cases)})
+
+
+def g_rng_attrs(T, g):
+    A = T.Attributes
+    return ('{| ra_nillable := %s; ra_gt := %s; ra_ge := %s; ra_lt := %s; ra_le := %s; ra_values := %s |}' % (
+        gbool(A.nillable), gopt(A.gt, g), g(A.ge), gopt(A.lt, g), g(A.le), glist([g(v) for v in sorted(A.values)])))
+
+def family_range_corr(check, tier):
+    """datetime_/date_/time_ xml_leaf and doc_leaf (Coq, generated validate_native + the C08 readers) against
+    XmlDocument.from_element and JsonDocument._from_dict_value for customised DateTime / Date / Time types"""
+    import datetime as D
+    from spyne.model.primitive import DateTime, Date, Time
+    from spyne.protocol.xml import XmlDocument
+    from spyne.protocol.json import JsonDocument
+    from lxml import etree
+    from c08 import g_dt, g_date, g_tod, dt_literals
+    rng = check.rng
+    xml = XmlDocument(validator='soft')
+    js = JsonDocument(validator='soft')
+    def tz(o):
+        return D.timezone(D.timedelta(minutes=o))
+    def rdt(near=None):
+        if near is not None and rng.random() < .7:
+            base = near + D.timedelta(seconds=rng.choice([-7200, -3600, -61, -1, 0, 1, 59, 3600, 7200]), microseconds=rng.choice([0, 0, 1, -1]))
+        else:
+            base = D.datetime(rng.randint(1990, 2030), rng.randint(1, 12), rng.randint(1, 28), rng.randint(0, 23), rng.randint(0, 59),
+                              rng.randint(0, 59), rng.choice([0, 0, 1, 999999, 500000]), tzinfo=D.timezone.utc)
+        return base.astimezone(tz(rng.choice([0, 0, 60, -60, 330, -210, 840, -840, rng.randint(-840, 840)])))
+    n_types = 14 if tier == 'quick' else 60
+    n_vals = 12 if tier == 'quick' else 30
+    malformed = dt_literals(check, 'quick')[:70]
+    for kind in ('DateTime', 'Date', 'Time'):
+        cases = {'xml': [], 'doc': []}
+        for i in range(n_types):
+            kw = {}
+            if kind == 'DateTime':
+                b1, b2 = sorted([rdt(), rdt()])
+                g, near = g_dt, b1
+            elif kind == 'Date':
+                b1, b2 = sorted([rdt().date(), rdt().date()])
+                g = g_date
+            else:
+                b1, b2 = sorted([rdt().time(), rdt().time()])
+                g = g_tod
+            if i == 0:
+                pass                      # the default attributes
+            else:
+                if rng.random() < .7:
+                    kw[rng.choice(['ge', 'gt'])] = b1
+                if rng.random() < .7:
+                    kw[rng.choice(['le', 'lt'])] = b2
+                if rng.random() < .15:
+                    kw['values'] = [b1, b2]
+                if rng.random() < .3:
+                    kw['nillable'] = False
+            T = {'DateTime': DateTime, 'Date': Date, 'Time': Time}[kind].customize(**kw)
+            ga = g_rng_attrs(T, g)
+            lits = []
+            for _ in range(n_vals):
+                if kind == 'DateTime':
+                    v = rdt(rng.choice([b1, b2]))
+                    if rng.random() < .2:
+                        v = v.replace(tzinfo=None)
+                    lit = v.isoformat()
+                    if lit.endswith('+00:00') and rng.random() < .5:
+                        lit = lit[:-6] + 'Z'
+                elif kind == 'Date':
+                    v = rng.choice([b1, b2]) + D.timedelta(days=rng.choice([-366, -1, 0, 0, 1, 30, 365]))
+                    lit = v.isoformat() + rng.choice(['', '', 'Z', '+02:00'])
+                else:
+                    b = rng.choice([b1, b2])
+                    us = (b.hour * 3600 + b.minute * 60 + b.second) * 1000000 + b.microsecond + rng.choice([-3600000000, -1, 0, 0, 1, 1000000])
+                    us = min(max(us, 0), 86399999999)
+                    v = D.time(us // 3600000000, us // 60000000 % 60, us // 1000000 % 60, us % 1000000)
+                    lit = v.isoformat()
+                lits.append(lit)
+            lits += rng.sample(malformed, 4)
+            if kind == 'Date':
+                lits += ['2020-02-30', '2020-1-5', '2020-01-05junk', 'abc', '']
+            if kind == 'Time':
+                lits += ['25:00:00', '12:00', '12:00:00junk', '']
+            for lit in lits + [None]:
+                el = etree.Element('x')
+                el.text = lit if lit else None
+                nil = lit is None and rng.random() < .5
+                if nil:
+                    el.set('{%s}nil' % XSI, 'true')
+                for path, o in (('xml', observe(xml.from_element, None, T, el)),
+                                ('doc', observe(js._from_dict_value, None, 'k', T, lit, js.validator))):
+                    if path == 'xml' and lit == '':
+                        src = None
+                    else:
+                        src = lit
+                    if path == 'doc' and nil:
+                        continue
+                    try:
+                        go = gout(o, lambda x: gopt(x, g))
+                    except ValueError:
+                        continue            # an offset with seconds: outside the C08 value model
+                    if o[0] == 'ok' and o[1] is not None and type(o[1]) is not {'DateTime': D.datetime, 'Date': D.date, 'Time': D.time}[kind]:
+                        continue
+                    if path == 'xml':
+                        cases['xml'].append(('(%s, %s, %s, %s)' % (ga, gbool(nil), gopt(src, gtext), go), '%s%r xml nil=%s %r -> %r' % (kind, kw, nil, lit, o)))
+                    else:
+                        cases['doc'].append(('(%s, %s, %s)' % (ga, gopt(src, gtext), go), '%s%r json %r -> %r' % (kind, kw, lit, o)))
+                    check.count(('rcorr', kind, path, str(kw), lit))
+        low = {'DateTime': 'datetime', 'Date': 'date', 'Time': 'time'}[kind]
+        vt = {'DateTime': 'datetime', 'Date': 'date', 'Time': 'tod'}[kind]
+        eqb = {'DateTime': 'dtl_eqb', 'Date': 'dl_eqb', 'Time': 'tl_eqb'}[kind]
+        lib.correspond(check, low + '_xml_leaf', FACET_IMPORTS, 'rng_attrs %s * bool * option text * out (option %s)' % (vt, vt),
+                       '(fun c => match c with (a, nl, s, r) => %s (%s_xml_leaf a nl s) r end)' % (eqb, low), cases['xml'],
+                       show='(fun c : rng_attrs %s * bool * option text * out (option %s) => match c with (a, nl, s, r) => %s_xml_leaf a nl s end)' % (vt, vt, low))
+        lib.correspond(check, low + '_doc_leaf', FACET_IMPORTS, 'rng_attrs %s * option text * out (option %s)' % (vt, vt),
+                       '(fun c => match c with (a, s, r) => %s (%s_doc_leaf a s) r end)' % (eqb, low), cases['doc'],
+                       show='(fun c : rng_attrs %s * option text * out (option %s) => match c with (a, s, r) => %s_doc_leaf a s end)' % (vt, vt, low))
+    check.sample({'family': 'date/time range path correspondence', 'types': n_types * 3, 'values_per_type': n_vals})
+
+
 # ------------------------------------------------------------------ wire forms of every primitive kind
 import datetime as _dt
 import decimal as _dec
@@ -1139,10 +1366,12 @@ def run(check):
     check.assumptions = ['date/time range facets and Decimal digit facets are exercised by the oracle only where listed; '
                          'the theorems cover the integer family, None handling and occurrence counting',
                          'patterns are compared against Python re.fullmatch (Spyne uses match + span == whole string)']
-    check.regen(['numtypes'])
+    check.regen(['numtypes', 'facettypes'])
     check.check_sources()
     check.prove('Props.C05', THEOREMS)
     family_leaf_corr(check, check.tier)
+    family_text_corr(check, check.tier)
+    family_range_corr(check, check.tier)
     family_int_e2e(check, check.tier)
     family_text_e2e(check, check.tier)
     family_occurs(check, check.tier)
